@@ -85,6 +85,13 @@ def cases(tier, seed):
                                     "boxes_only": vi > 0, "devlevel": devlevel[vi]})
                         c = out[-1]
                         c["w"] = (60 if c["full"] else (1 if c["boxes_only"] else 6)) * nlev
+    # seven levels refined towards the far corner, twelve fields: FAB header lines longer than 100 bytes
+    m = scope.deep_corner_mesh()
+    for vi, lays in enumerate(([None] * 7, [scope.layouts(2, 'idrev')[-1]] * 7)):
+        d = dict(m)
+        d.update(geos[3][vi])
+        d.update({"fields": list(scope.DEEP_FIELDS), "layout": lays, "payload": ["coded", "signed", "huge"] * 4, "time": times[0], "seed": seed})
+        out.append({"desc": d, "full": False, "maxlist": 2, "boxes_only": True, "devlevel": None if vi == 0 else 6, "w": 40, "deep": True})
     return out
 
 
